@@ -1475,7 +1475,9 @@ def _resolve_without_copies(cls: type, name: str) -> Any:
     for klass in cls.__mro__:
         if name in klass.__dict__:
             value = klass.__dict__[name]
-            if not _is_inherited_copy(value):
+            if not _is_inherited_copy(
+                value.__func__ if isinstance(value, staticmethod) else value
+            ):
                 return value
 
     return None
@@ -1622,7 +1624,8 @@ def add_invariant_checks(cls: ClassT) -> None:
                 if wrapper is not new_func and "__new__" not in cls.__dict__:
                     setattr(wrapper, "__is_inherited_copy__", True)
 
-                setattr(cls, "__new__", wrapper)
+                # __new__ is a static method (Python makes it one implicitly when it is defined in a class body).
+                setattr(cls, "__new__", staticmethod(wrapper))
         else:
             wrapper = _decorate_with_invariants(func=init_func, is_init=True)
             if wrapper is not init_func or "__init__" in unshadowed:
